@@ -289,6 +289,25 @@ Proof.
   - subst o'. rewrite e. right. destruct o; cbn; split; auto; repeat split; cbn; auto.
 Qed.
 
+Lemma mono_with_tc_to A v (f : M A) : Mono f -> Mono (with_tc_to v f).
+Proof.
+  intros Hf d s s' HR. unfold with_tc_to. destruct HR as (a & b & c & e & f0).
+  assert (HR' : Rlim (set_tc v s) (set_tc v s')) by (repeat split; cbn; auto).
+  specialize (Hf d _ _ HR').
+  destruct (f d (set_tc v s)) as [o t], (f d (set_tc v s')) as [o' t'].
+  destruct Hf as [[x [Hx Hl]] | [Heq (a' & b' & c' & e' & f')]]; cbn in *.
+  - subst o. left. exists x. cbn. auto.
+  - subst o'. rewrite e. right. destruct o; cbn; split; auto; repeat split; cbn; auto.
+Qed.
+
+Lemma mono_projection A n (f : M A) : Mono f -> Mono (projection n f).
+Proof.
+  intros Hf d s s' HR. unfold projection.
+  assert (E : tc s = tc s') by (destruct HR as (_ & _ & _ & e & _); exact e). rewrite <- E.
+  apply (mono_with_projection_tc _ (comma_sep n (with_tc_to (tc s) f))); [|exact HR].
+  apply resp_comma_sep; first [apply Rlim_cursor | apply Rlim_set_idx | apply mono_is_end | apply mono_with_tc_to; exact Hf].
+Qed.
+
 Lemma mono_comma_sep0 A n (f : M A) t : Mono f -> Mono (comma_sep0 n f t).
 Proof.
   intro Hf. unfold comma_sep0.
@@ -397,6 +416,14 @@ Proof.
     (destruct Hf as (h1 & h2 & h3 & h4); [discriminate|]; cbn in *; repeat split; cbn; auto).
 Qed.
 
+Lemma frame_with_tc_to A v (f : M A) : Frame f -> Frame (with_tc_to v f).
+Proof.
+  intros Hf d s. unfold with_tc_to. specialize (Hf d (set_tc v s)).
+  destruct (f d (set_tc v s)) as [o t]; cbn in *.
+  destruct o; cbn; intro Hn; try congruence;
+    (destruct Hf as (h1 & h2 & h3 & h4); [discriminate|]; cbn in *; repeat split; cbn; auto).
+Qed.
+
 (** * All programs built from the interface *)
 Section Iface.
   (** side conditions on the two configurable constructors *)
@@ -419,6 +446,7 @@ Section Iface.
   | I_guard A p : Iface A p -> Iface A (guard p)
   | I_with_state A st f : Iface A f -> Iface A (with_state st f)
   | I_with_projection_tc A f : Iface A f -> Iface A (with_projection_tc f)
+  | I_projection A n f : Iface A f -> Iface _ (projection n f)
   | I_is_end : Iface _ is_end
   | I_comma_sep0 A n f t : Iface A f -> okend t -> Iface _ (comma_sep0 n f t)
   | I_actions_list A n f : Iface A f -> Iface _ (actions_list n f)
@@ -463,8 +491,6 @@ Section Iface.
   Lemma I_parenthesized A f : Iface A f -> Iface A (parenthesized f).
   Proof. intro Hf. unfold parenthesized. apply I_bind. apply I_expect_token. intro.
     apply I_bind; auto. intro r. apply I_bind. apply I_expect_token. intro. apply I_ret. Qed.
-  Lemma I_projection A n f : Iface A f -> Iface _ (projection n f).
-  Proof. intro. apply I_with_projection_tc. apply I_comma_sep. assumption. Qed.
   Lemma I_mfix X A (F : (X -> M A) -> X -> M A) :
     (forall rec, (forall x, Iface A (rec x)) -> forall x, Iface A (F rec x)) ->
     forall n x, Iface A (mfix F n x).
